@@ -53,6 +53,16 @@ func (tw *trimWriter) WriteText(s string) error {
 	return err
 }
 
+// Barrier marks the start of a tag, object or raw block. Whitespace control
+// only reaches the literal text immediately next to the marker, so text that
+// is still buffered can no longer be trimmed from the right, and a pending
+// right trim does not carry over to text that follows the tag or object.
+func (tw *trimWriter) Barrier() error {
+	tw.trim = false
+	_, err := tw.Flush()
+	return err
+}
+
 // TrimLeft trims all whitespaces before the trim node, i.e. the whitespace
 // suffix of the current buffer. It then writes the current buffer to w and
 // resets the buffer.
